@@ -31,6 +31,9 @@ try:
     patch = os.path.join(mdir, 'patch.diff')
     support = os.path.join(mdir, 'demo-support.diff')
     demos = [f for f in glob.glob(os.path.join(mdir, '*.rs'))]
+    readme0 = open(os.path.join(mdir, 'README.md')).read() if os.path.exists(os.path.join(mdir, 'README.md')) else ''
+    # examples that are *meant* not to compile on the clean tree (C19-style) are not run as demos; the test files decide
+    demos = [f for f in demos if not (('examples/' + os.path.basename(f)) in readme0 and prop == 'C19')]
     readme = open(os.path.join(mdir, 'README.md')).read() if os.path.exists(os.path.join(mdir, 'README.md')) else ''
     rc, out = sh(['git', 'apply', '--whitespace=nowarn', patch])
     meta['steps']['applies'] = rc == 0
@@ -70,9 +73,17 @@ try:
                 res[name] = dict(passed=passed, output=out[-1200:])
             return res
         with_change = run_demos()
-        sh(['git', 'apply', '-R', '--whitespace=nowarn', patch])
+        rcr, outr = sh(['git', 'apply', '-R', '--whitespace=nowarn', patch])
+        if rcr != 0:
+            # the support patch was cut next to the mutant's lines: rebuild "clean + support" by a 3-way apply on a clean tree
+            sh('git checkout -q -- . ')
+            rcs, outs = sh(['git', 'apply', '--3way', '--whitespace=nowarn', support])
+            meta['steps']['support_applies_on_clean'] = (rcs == 0)
         without = run_demos()
+        sh('git checkout -q -- . ')
         sh(['git', 'apply', '--whitespace=nowarn', patch])
+        if os.path.exists(support):
+            sh(['git', 'apply', '--whitespace=nowarn', support])
         meta['demo'] = dict(with_change=with_change, without_change=without)
         meta['steps']['demo_fails_with_change'] = any(not v['passed'] for v in with_change.values())
         meta['steps']['demo_passes_without_change'] = all(v['passed'] for v in without.values())
@@ -113,6 +124,11 @@ try:
     keep = meta['steps'].get('applies') and meta['steps'].get('builds') and meta['steps'].get('suite_passes_with_change') and \
         (meta['steps'].get('demo_fails_with_change') in (True, None)) and (meta['steps'].get('demo_passes_without_change', True))
     meta['kept'] = bool(keep)
+    if not keep:
+        why = [k for k, v in meta['steps'].items() if v is False]
+        meta['not_kept_reason'] = 'failed step(s): ' + ', '.join(why)
+        if meta['steps'].get('demo_fails_with_change') is False:
+            meta['not_kept_reason'] = 'no demonstration that fails when run on this machine (weak-memory-only change with a written execution); recorded, but not counted as a confirmed seeded change'
     out = os.path.join(VERIF, 'seeded', sid)
     os.makedirs(out, exist_ok=True)
     shutil.copy(patch, os.path.join(out, 'patch.diff'))
